@@ -140,6 +140,15 @@ func c13Params(explode *bool) ([]c13param, []any, []any) {
 		{"X-DA", "header", gen.S{"type": "array", "items": gen.S{"type": "string"}, "default": gen.Arr("a", "b")}, "c,d", gen.Arr("a", "b")},
 		{"ck", "cookie", gen.S{"type": "string", "default": "cd"}, "mine", "cd"},
 	}
+	if explode != nil && *explode {
+		// a fractional default: what is forwarded must read back as 0.75, not as a rounded number
+		ps[0] = c13param{"qi", "query", gen.S{"type": "number", "default": 0.75, "maximum": 0.9}, "0.5", 0.75}
+	}
+	if explode != nil && !*explode {
+		// the default sits in an allOf member of the parameter's schema (the usual {description, allOf: [$ref]} wrapper)
+		ps[3] = c13param{"X-D", "header", gen.S{"description": "wrapped", "allOf": gen.Arr(gen.S{"type": "string", "default": "hd"})}, "mine", "hd"}
+		ps[5] = c13param{"ck", "cookie", gen.S{"description": "wrapped", "allOf": gen.Arr(gen.S{"type": "string", "default": "cd"})}, "mine", "cd"}
+	}
 	var js, pathJS []any
 	for _, p := range ps {
 		m := gen.S{"name": p.name, "in": p.in, "schema": p.schema}
